@@ -34,9 +34,9 @@ def check_rejects(R, q, x, d, eff, status, o, fmt):
         R.oracle_fail(f"reject data is not a valid {'unified' if as_unified else 'context'} diff: {e}", {"request": q, "observed": x}, tag=tag); return
     if len(sides) != len(failed_idx):
         R.oracle_fail("number of hunks in the reject data differs from the number of failed hunks", {"request": q, "observed": x}, tag=tag); return
-    # a reject file carries content and the missing-newline marker, not the LF/CRLF class (content ending in CR reads back as CRLF)
+    # a reject file carries content, the CRLF line end of a line that had one, and the missing-newline marker
     got = lambda ls: [(c + (b"\r" if t == "C" else b""), t == "N") for c, t in ls]
-    want = lambda ls: [(c, t == "N") for c, t in ls]
+    want = got
     for (so, sn), i in zip(sides, failed_idx):
         if got(so) != want(gen.old_side(eff[i])) or got(sn) != want(gen.new_side(eff[i])):
             R.oracle_fail(f"reject hunk for hunk {i+1} does not carry that hunk's old/new lines", {"request": q, "observed": x, "hunk": i}, tag=tag); return
@@ -46,6 +46,8 @@ def run(R):
     if not R.build():
         return
     R.lean(["C04", "C04x"])
+    import hunted
+    hunted.run(R, "C04")
     quick = R.tier == "quick"
     rng = R.rng
     ac = cases.apply_cases(rng, 12000 if quick else 150000, 12 if quick else 30)
